@@ -110,7 +110,9 @@ SIBLINGS = {
     'C09-r7-3': ['C09', 'C08'],   # the parser rejects a label name reused in sibling blocks: acceptance of valid programs is C08's subject
     'C01-r8-2': ['C01', 'C02'],   # the 26th generated name repeats the first: non-injective renaming (C02)
     'C11-r8-1': ['C11', 'C14'],   # a missing file behind a nested require() no longer fails the build (nothing fails, so C11 has nothing to judge): C14's last sentence
-    'C19-r7-3': ['C19', 'C20'],   # #include of a cart drops that cart's leading comments: the spliced lines are C20's subject
+    'C19-r7-3': ['C19', 'C20'],
+    'C06-r9-1': ['C06', 'C04', 'C05'],   # the _update60 shim stored as cart code when the code is kept raw: the .p8.png code area is C04's / C05's subject
+    'C19-r9-3': ['C19', 'C06'],   # Lua.update_from_lines() drops what earlier calls loaded: the object's code is C06's subject   # #include of a cart drops that cart's leading comments: the spliced lines are C20's subject
     'C08-r6-3': ['C08', 'C14'],   # default AST-walker handlers missing for keyed table fields: the parser's tree is intact, build's RequireWalker crashes (C14)   # the change is in #include processing (a commented-out include is expanded): C20's "every other line unchanged"   # the AST *walker* skips if-blocks (the parser's tree is intact): require() inside an if is not packaged (C14)
 }
 
@@ -127,6 +129,14 @@ NOT_A_VIOLATION = {
                 '(PICO-8\'s line-wise expansion of `a += b`) a compound assignment ends with its line, so such a program is outside the domain',
     'C20-r7-1': 'only affects directive lines with other text after the name (`#include x.lua // note`); the statement speaks of `#include NAME` '
                 'lines and does not say what trailing text means',
+    'C08-r9-2': 'only affects an `if (cond)` with no statement after it on its line (`if (dbg) -- print(x)`); in the dialect of Appendix A a '
+                'short-form if has one or more statements on its line, and C08 speaks of the statements a short-if owns. What a condition '
+                'with nothing to own means is not defined by the statements (the unchanged tree reads a `do` block on the NEXT line as its '
+                'body, i.e. does not treat it as an empty line-scoped construct either)',
+    'C03-r9-3': 'widens #include to names with any extension (PICO-8 itself includes any text file); only carts whose code has a physical '
+                'line `#include name.ext` (quoted in a block comment) are affected, and such a line IS an include directive by C20 - a cart '
+                'with an include directive naming a missing file does not load on the unchanged tree either (`#include x.lua` in a comment). '
+                'Which names make a line a directive beyond .lua/.p8/.p8.png is not fixed by the statements',
     'C14-r4-2': 'a require() inside a stripped game-loop function is followed: if its file is missing the build fails, which the statement '
                 'prescribes for a require() whose file cannot be found; if it exists one more required name is defined once - neither '
                 'contradicts the statement',
